@@ -11,6 +11,8 @@
    the outcome of connecting, of the upstream TLS handshake (given the exact context settings
    the code passed), of every `openssl` command, of the flush and handshake on the client side.
    Definitions only; the proofs are in InterceptFacts.v.
+   Round 2: the upstream ssl context records every later trust-store call (wc_extra_trust), and the relay has
+   single send()/recv() events with their outcomes (short writes, would-block, peer failures).
 
    The model describes the tree after the fix commit 28fb598 (proposed_fixes/C11-ip-literal-hosts.diff):
    IP literals get an `IP:` subjectAltName, brackets of IPv6 literals are stripped for
@@ -23,6 +25,9 @@ Inductive pyexn :=
 | SSLCertVerificationError          (* ssl.SSLCertVerificationError (SSLError, ValueError) *)
 | SSLEOFError                       (* ssl.SSLEOFError (SSLError) *)
 | SSLError (reason : bytes)         (* any other ssl.SSLError, with its .reason *)
+| SSLWantReadError                  (* ssl.SSLWantReadError (SSLError): non-blocking TLS socket, try again *)
+| SSLWantWriteError                 (* ssl.SSLWantWriteError (SSLError) *)
+| BlockingIOError_                  (* OSError: plain non-blocking socket would block *)
 | BrokenPipeError                   (* OSError *)
 | ConnectionResetError              (* OSError *)
 | TimeoutError                      (* OSError (socket.timeout) *)
@@ -40,16 +45,25 @@ Definition is_SSLEOFError (e : pyexn) : bool :=
   match e with SSLEOFError => true | _ => false end.
 (* isinstance(e, ssl.SSLError) *)
 Definition is_SSLError (e : pyexn) : bool :=
-  match e with SSLCertVerificationError | SSLEOFError | SSLError _ => true | _ => false end.
+  match e with
+  | SSLCertVerificationError | SSLEOFError | SSLError _ | SSLWantReadError | SSLWantWriteError => true
+  | _ => false
+  end.
 Definition is_BrokenPipeError (e : pyexn) : bool :=
   match e with BrokenPipeError => true | _ => false end.
 (* isinstance(e, OSError)  (socket.error is OSError) *)
 Definition is_OSError (e : pyexn) : bool :=
   match e with
-  | SSLCertVerificationError | SSLEOFError | SSLError _ | BrokenPipeError | ConnectionResetError
-  | TimeoutError | OSErrorOther => true
+  | SSLCertVerificationError | SSLEOFError | SSLError _ | SSLWantReadError | SSLWantWriteError
+  | BlockingIOError_ | BrokenPipeError | ConnectionResetError | TimeoutError | OSErrorOther => true
   | _ => false
   end.
+Definition is_SSLWantReadError (e : pyexn) : bool :=
+  match e with SSLWantReadError => true | _ => false end.
+Definition is_SSLWantWriteError (e : pyexn) : bool :=
+  match e with SSLWantWriteError => true | _ => false end.
+Definition is_BlockingIOError (e : pyexn) : bool :=
+  match e with BlockingIOError_ => true | _ => false end.
 Definition is_TimeoutExpired (e : pyexn) : bool :=
   match e with TimeoutExpired => true | _ => false end.
 Definition is_HttpProtocolException (e : pyexn) : bool :=
@@ -61,6 +75,7 @@ Definition pyexn_code (e : pyexn) : N :=
   | ConnectionResetError => 5 | TimeoutError => 6 | OSErrorOther => 7 | TimeoutExpired => 8
   | AssertionError_ => 9 | KeyError_ => 10 | UnicodeDecodeError_ => 11
   | HttpProtocolException_ => 12 | ProxyConnectionFailed => 13
+  | SSLWantReadError => 14 | SSLWantWriteError => 15 | BlockingIOError_ => 16
   end.
 
 (* ------------------------------------------------------------------ configuration *)
@@ -78,8 +93,10 @@ Record flags := mkFlags {
   ca_cert_file : option bytes;
   ca_file : option bytes;                  (* trust store for upstream verification *)
   insecure_tls_interception : bool;
-  bad_gateway_pkt : bytes                  (* BAD_GATEWAY_RESPONSE_PKT (contains the version string) *)
+  bad_gateway_pkt : bytes;                 (* BAD_GATEWAY_RESPONSE_PKT (contains the version string) *)
+  max_sendbuf_size : N                     (* --max-sendbuf-size: at most this many bytes per send() *)
 }.
+Definition DEFAULT_MAX_SEND_SIZE : N := 65536.
 
 Definition is_some {A} (o : option A) : bool := match o with Some _ => true | None => false end.
 (* Python truthiness of Optional[str] *)
@@ -127,7 +144,12 @@ Record wrap_call := mkWrapCall {
   wc_cafile : option bytes;
   wc_check_hostname : bool;
   wc_verify_mode : verify_mode;
-  wc_server_hostname : option bytes
+  wc_server_hostname : option bytes;
+  wc_extra_trust : list bytes;       (* every further trust-store / cipher call made on the context after
+                                        create_default_context(cafile=..): "load_default_certs",
+                                        "load_verify_locations:<file>", "set_default_verify_paths", ... *)
+  wc_settings_default : bool         (* verify_flags, protocol versions, hostname_checks_common_name and options
+                                        are what create_default_context left (| DEFAULT_SSL_CONTEXT_OPTIONS) *)
 }.
 
 (* the openssl invocations of pki.py; the serial number (time and pid) is not modelled *)
@@ -378,7 +400,9 @@ Section Model.
     let c := {| wc_cafile := ca_file_;
                 wc_check_hostname := if verify_mode_eqb vm CERT_NONE then false else is_some hostname;
                 wc_verify_mode := vm;
-                wc_server_hostname := hostname |} in
+                wc_server_hostname := hostname;
+                wc_extra_trust := [];
+                wc_settings_default := true |} in
     emit (EUpstreamWrap c) ;;;
     match handshake c with
     | HsOk p => set_up UpTls ;;; set_peer p
@@ -495,7 +519,10 @@ Section Model.
   | Running          (* handler reads from the client and from the upstream *)
   | MustFlush        (* handle_data returned True with output pending: client no longer read,
                         plugin.read_from_descriptors still called; closes once flushed *)
-  | ReadsTeared      (* reads_teared: nothing is read any more; closes once flushed *)
+  | ReadsTeared      (* reads_teared: nothing is read any more (the upstream buffer is still flushed);
+                        closes once the client buffer is flushed *)
+  | WritesTeared     (* writes_teared (and hence reads_teared): write_to_descriptors returned True with
+                        output pending for the client; nothing but the client flush happens any more *)
   | Closed.          (* handle_events returned True or raised: the work is shut down *)
 
   Record hstate := mkH {
@@ -538,6 +565,9 @@ Section Model.
                     | _ => s
                     end in
           with_mode (with_ps h s') (after_handle_data_true s')
+        else if is_SSLWantReadError e then
+          (* HttpProtocolHandler.handle_readables: except ssl.SSLWantReadError -> return False *)
+          with_ps h s
         else if is_OSError e then
           (* HttpProtocolHandler.handle_readables: except socket.error -> return True *)
           with_mode (with_ps h s) (after_reads_teared s)
@@ -572,15 +602,44 @@ Section Model.
       end
     else with_ps h (fst (set_cl_buf (cl_buf s ++ [raw]) s)).
 
+  (* outcome of one send() *)
+  Inductive send_outcome := SendOk (k : N) | SendRaise (e : pyexn).
+
   Inductive event :=
   | ClientData (answers : list bool) (raw : bytes)     (* the client socket is readable, recv() = raw *)
   | UpstreamData (answers : list bool) (raw : bytes)   (* the origin has sent raw *)
   | FlushClient                                        (* the client socket accepts everything queued *)
-  | FlushUpstream.                                     (* the upstream socket accepts everything queued *)
+  | FlushUpstream                                      (* the upstream socket accepts everything queued *)
+  (* single I/O calls with their outcome, faults included *)
+  | ClientWrite (o : send_outcome)       (* client writable: one flush(max_sendbuf_size) in handle_writables *)
+  | UpstreamWrite (o : send_outcome)     (* upstream writable: one flush(max_sendbuf_size) in write_to_descriptors *)
+  | ClientRecvRaise (e : pyexn)          (* client readable, recv() raises *)
+  | UpstreamRecvRaise (e : pyexn)        (* upstream readable, recv() raises *)
+  | UpstreamEOF.                         (* upstream readable, recv() returns b'' *)
 
   Definition is_tls_cl (c : cl_state) : bool := match c with ClTls => true | _ => false end.
   Definition is_tls_up (u : up_state) : bool := match u with UpTls => true | _ => false end.
   Definition up_fd_valid (u : up_state) : bool := match u with UpPlain | UpTls => true | _ => false end.
+
+  (* TcpConnection.flush(max_send_size): one send() of the head of the buffer *)
+  Inductive flush_step := FsNoop | FsSent (data : bytes) (buf' : list bytes) | FsRaise (e : pyexn).
+  Definition conn_flush (max_send : N) (buf : list bytes) (o : send_outcome) : flush_step :=
+    match buf with
+    | [] => FsNoop                                         (* not has_buffer() *)
+    | mv :: rest =>
+        let offered := take (if max_send =? 0 then DEFAULT_MAX_SEND_SIZE else max_send) mv in
+        match o with
+        | SendRaise e => if is_BlockingIOError e then FsNoop else FsRaise e     (* except BlockingIOError: return 0 *)
+        | SendOk k =>
+            let sent := N.min k (len offered) in
+            FsSent (take sent mv) (if sent =? len mv then rest else drop sent mv :: rest)
+        end
+    end.
+
+  (* "if self.reads_teared and not self.work.has_buffer(): return True" *)
+  Definition teared (h : hstate) (m : hmode) : hstate :=
+    match cl_buf (ps h) with [] => with_mode h Closed | _ => with_mode h m end.
+  Definition escape (h : hstate) (e : pyexn) : hstate := mkH (ps h) Closed (Some e) (pipe h) (resp h).
 
   Definition step (fl : flags) (h : hstate) (ev : event) : hstate :=
     match mode h with
@@ -610,18 +669,82 @@ Section Model.
             | c, buf =>
                 let s' := fst ((set_cl_wire (cl_wire s ++ map (fun d => (is_tls_cl c, d)) buf) ;;; set_cl_buf []) s) in
                 match m with
-                | MustFlush | ReadsTeared => with_mode (with_ps h s') Closed
-                | _ => with_ps h s'
+                | Running => with_ps h s'
+                | _ => with_mode (with_ps h s') Closed
                 end
             end
         | FlushUpstream =>
+            (* plugin.write_to_descriptors is called until writes_teared *)
             let s := ps h in
             match m with
-            | Running =>
+            | Running | MustFlush | ReadsTeared =>
                 if up_fd_valid (up s) then
                   with_ps h (fst ((set_up_wire (up_wire s ++ map (fun d => (is_tls_up (up s), d)) (up_buf s)) ;;;
                                    set_up_buf []) s))
                 else h
+            | _ => h
+            end
+        | ClientWrite o =>
+            (* HttpProtocolHandler.handle_writables -> BaseTcpServerHandler.handle_writables *)
+            let s := ps h in
+            match cl s with
+            | ClDead => h
+            | c =>
+                match conn_flush (max_sendbuf_size fl) (cl_buf s) o with
+                | FsNoop => h
+                | FsSent data buf' =>
+                    let s' := fst ((set_cl_wire (cl_wire s ++ [(is_tls_cl c, data)]) ;;; set_cl_buf buf') s) in
+                    match m, buf' with
+                    | Running, _ => with_ps h s'
+                    | _, [] => with_mode (with_ps h s') Closed      (* must_flush / reads_teared and drained *)
+                    | _, _ => with_ps h s'
+                    end
+                | FsRaise e =>
+                    (* except BrokenPipeError: return True / except OSError: return True *)
+                    if is_OSError e then with_mode h Closed else escape h e
+                end
+            end
+        | UpstreamWrite o =>
+            (* HttpProxyPlugin.write_to_descriptors, the branch with the upstream descriptor writable *)
+            let s := ps h in
+            match m with
+            | Running | MustFlush | ReadsTeared =>
+                if up_fd_valid (up s) then
+                  match conn_flush (max_sendbuf_size fl) (up_buf s) o with
+                  | FsNoop => h
+                  | FsSent data buf' =>
+                      with_ps h (fst ((set_up_wire (up_wire s ++ [(is_tls_up (up s), data)]) ;;; set_up_buf buf') s))
+                  | FsRaise e =>
+                      if is_SSLWantWriteError e then h                 (* except ssl.SSLWantWriteError: return False *)
+                      else if is_OSError e then teared h WritesTeared  (* BrokenPipeError / OSError: _close_and_release() *)
+                      else escape h e
+                  end
+                else h
+            | _ => h
+            end
+        | ClientRecvRaise e =>
+            match m, cl (ps h) with
+            | Running, ClDead => h
+            | Running, _ =>
+                if is_SSLWantReadError e then h                        (* try again later *)
+                else if is_OSError e then teared h ReadsTeared         (* reset, timeout, any socket.error *)
+                else escape h e
+            | _, _ => h
+            end
+        | UpstreamRecvRaise e =>
+            match m with
+            | Running | MustFlush =>
+                if up_fd_valid (up (ps h)) then
+                  if is_SSLWantReadError e then h
+                  else if is_OSError e then teared h ReadsTeared       (* TimeoutError(ETIMEDOUT) / OSError *)
+                  else escape h e
+                else h
+            | _ => h
+            end
+        | UpstreamEOF =>
+            match m with
+            | Running | MustFlush =>
+                if up_fd_valid (up (ps h)) then teared h ReadsTeared else h
             | _ => h
             end
         end
@@ -644,7 +767,9 @@ Definition policy_call (fl : flags) (h : bytes) : wrap_call :=
   {| wc_cafile := ca_file fl;
      wc_check_hostname := negb (insecure_tls_interception fl);
      wc_verify_mode := if insecure_tls_interception fl then CERT_NONE else CERT_REQUIRED;
-     wc_server_hostname := Some (strip_brackets h) |}.
+     wc_server_hostname := Some (strip_brackets h);
+     wc_extra_trust := [];
+     wc_settings_default := true |}.
 
 (* an openssl command that is "about host h": file names derived from h below ca_cert_dir, the
    subjectAltName of h, the configured leaf key and signing CA *)
@@ -682,12 +807,13 @@ Definition plain_wire (w : list (bool * bytes)) : Prop := Forall (fun x => fst x
 Definition tls_wire (w : list (bool * bytes)) : Prop := Forall (fun x => fst x = true) w.
 
 (* What is assumed of openssl's verification (the part of the property that is not proxy.py's logic):
-   [chain_ok cafile] - the origin's certificate chain verifies against that trust store (issuer known,
-   within its validity period); [name_ok host] - the certificate names that host.
+   [chain_ok cafile] - the origin's certificate chain verifies against that trust store and nothing else
+   (issuer known, within its validity period; no further trust anchors loaded into the context); [name_ok host] - the certificate names that host.
    With CERT_REQUIRED a bad chain fails the handshake, and with check_hostname a wrong name does. *)
 Definition openssl_spec (handshake : wrap_call -> hs_result)
            (chain_ok : option bytes -> bool) (name_ok : bytes -> bool) : Prop :=
-  (forall c, wc_verify_mode c = CERT_REQUIRED -> chain_ok (wc_cafile c) = false ->
+  (forall c, wc_verify_mode c = CERT_REQUIRED -> wc_extra_trust c = [] -> wc_settings_default c = true ->
+             chain_ok (wc_cafile c) = false ->
              handshake c = HsRaise SSLCertVerificationError) /\
   (forall c hn, wc_verify_mode c = CERT_REQUIRED -> wc_check_hostname c = true ->
                 wc_server_hostname c = Some hn -> name_ok hn = false ->
@@ -702,6 +828,19 @@ Definition upstream_chunks (evs : list event) : list bytes :=
 Definition event_answers (ev : event) : option (list bool) :=
   match ev with ClientData a _ | UpstreamData a _ => Some a | _ => None end.
 Definition is_FlushClient (ev : event) : bool := match ev with FlushClient => true | _ => false end.
+
+(* events that must not disturb an exchange: data, flushes, short writes and every "would block, try
+   again later" answer of a non-blocking socket (plain: BlockingIOError on send; TLS: SSLWantWriteError on
+   the upstream send, SSLWantReadError on either recv) *)
+Definition benign (ev : event) : Prop :=
+  match ev with
+  | ClientData _ _ | UpstreamData _ _ | FlushClient | FlushUpstream => True
+  | ClientWrite (SendOk _) | UpstreamWrite (SendOk _) => True
+  | ClientWrite (SendRaise e) => e = BlockingIOError_
+  | UpstreamWrite (SendRaise e) => e = BlockingIOError_ \/ e = SSLWantWriteError
+  | ClientRecvRaise e | UpstreamRecvRaise e => e = SSLWantReadError
+  | UpstreamEOF => False
+  end.
 
 (* an event at which interception is (still) declined: flags incomplete or some plugin answers False *)
 Definition declined (fl : flags) (ev : event) : Prop :=
